@@ -1,5 +1,6 @@
 import readline
 from fractions import Fraction as frac
+from decimal import Decimal
 import sys
 import os
 import os.path
@@ -405,14 +406,14 @@ def display_result(r, out, brackets_for_frac=False, newline=True, unit_format_fn
             print(unit_format_fn(r.qv), end="", file=out)
         if isinstance(r.mag, frac):
             print("    ("
-                    + str(precisionify_float(float(r.mag))) + " "
+                    + str(precisionify_frac(r.mag)) + " "
                     + unit_format_fn(r.qv) + ")",
                   end="",
                   file=out)
         print(file=out, **newline_args)
     elif isinstance(r, frac):
         print(prettify_frac(r),
-              "    (" + str(precisionify_float(float(r))) + ")",
+              "    (" + str(precisionify_frac(r)) + ")",
               file=out,
               **newline_args)
     elif isinstance(r, float):
@@ -457,6 +458,14 @@ def stringify_result(r, brackets_for_frac=False):
 def precisionify_float(f):
     fstring = "{:." + str(ka.config.get(ConfigProperties.PRECISION)) + "g}"
     return fstring.format(f)
+
+def precisionify_frac(f):
+    try:
+        return precisionify_float(float(f))
+    except OverflowError:
+        # Too large for a float: let Decimal do the division and formatting.
+        fstring = "{:." + str(ka.config.get(ConfigProperties.PRECISION)) + "g}"
+        return fstring.format(Decimal(f.numerator) / Decimal(f.denominator))
 
 def prettify_frac(f, brackets=False):
     sign = 1 if f >= 0 else -1
